@@ -405,7 +405,7 @@ def show(v, depth=0):
 def call(func, args):
     """(outcome, stdout, final argument state)"""
     buf = io.StringIO()
-    with contextlib.redirect_stdout(buf):
+    with contextlib.redirect_stdout(buf), contextlib.redirect_stderr(io.StringIO()):      # (stderr: kept out of the check's output)
         try:
             out = ("returned", show(func(*args)))
         except BaseException as e:  # noqa: BLE001
